@@ -112,7 +112,7 @@ inductive Constant (ν : Type) where
   | scalar (x : ν)
   | boolean (b : Bool)
   | string (s : String)
-  | fnref (foreign : Bool) (name : Name)
+  | fnref (foreign : Bool) (name : Name) (idx : Nat)
   | fmtspec (s : Option String)
 
 /-- `Constant::to_value` -/
@@ -120,7 +120,7 @@ def Constant.toValue {ν : Type} : Constant ν → Value ν
   | .scalar x => .num x
   | .boolean b => .bool b
   | .string s => .str s
-  | .fnref f n => .fnref f n
+  | .fnref f n i => .fnref f n i
   | .fmtspec s => .fmtspec s
 
 structure Chunk where
@@ -216,7 +216,12 @@ def compileExpr : Expr ν → CS ν → Res (CS ν)
         if lastResultIdentifiers.contains x then .ok (cs.emit .getLastResult [])
         else
           match assocLast x cs.functions with
-          | some foreign => cs.loadConst (.fnref foreign x)
+          | some true => cs.loadConst (.fnref true x 0)
+          | some false =>
+            -- `Vm::get_function_idx` at compile time: the newest chunk with that name
+            (match lastIdx (fun n => n == x) cs.chunkNames with
+             | some idx => cs.loadConst (.fnref false x idx)
+             | none => .panic "called `Option::unwrap()` on a `None` value (get_function_idx)")
           | none => .panic "internal error: entered unreachable code: Unknown identifier"
   | .neg e, cs => (compileExpr e cs).bind fun cs => .ok (cs.emit .negate [])
   | .fact k e, cs => (compileExpr e cs).bind fun cs => .ok (cs.emit .factorial [k])
@@ -548,14 +553,11 @@ def exec (S : Sem ν) (P : Prog ν) (m : Machine ν) (f : Frame) (fs : List Fram
   | .callCallable, [nargs, _] =>
     (match pop m.stack with
      | none => .panic "stack should not be empty"
-     | some (s, .fnref false name) =>
-       (match lastIdx (fun c => c.name == name) P.chunks with
-        | none => .panic "called `Option::unwrap()` on a `None` value (get_function_idx)"
-        | some idx =>
-          if nargs ≤ s.length then
-            .next { m with stack := s, frames := { fn := idx, ip := 0, fp := s.length - nargs } :: f :: fs }
-          else .panic "attempt to subtract with overflow")
-     | some (s, .fnref true name) =>
+     | some (s, .fnref false _ idx) =>
+       if nargs ≤ s.length then
+         .next { m with stack := s, frames := { fn := idx, ip := 0, fp := s.length - nargs } :: f :: fs }
+       else .panic "attempt to subtract with overflow"
+     | some (s, .fnref true name _) =>
        if P.ffiNames.contains name then
          (match popN nargs s with
           | none => .panic "stack should not be empty"
